@@ -19,6 +19,7 @@ Notation cbt := (change_base_tree prec emax Hprec Hmax lib).
 Notation rebR := (rebase_R prec emax Hprec Hmax lib).
 Notation u := (u prec).
 Notation Hc := (H prec).
+Notation emin := (3 - emax - prec)%Z.
 
 Lemma q_bin_float {R} (f : fl -> fl -> R) Ul Ur d a b :
   q_bin St f true Ul Ur d a b = f a (change_base F Ul Ur d b).
@@ -77,5 +78,56 @@ Proof.
   assert (EX : X = Tree.evalR prec emax t') by (unfold X, t', B, rebase_R; destruct dv; reflexivity).
   assert (Eo : S (ops prec emax t) = ops prec emax t') by (unfold t'; destruct dv; reflexivity).
   rewrite EX, Eo. apply eval_relerr. exact St.
+Qed.
+(* one fused multiply-add of finite floats whose exact result is in the normal range *)
+Lemma ffma_rel (x y z : fl) : is_finite x = true -> is_finite y = true -> is_finite z = true ->
+  normal prec emax (B2R x * B2R y + B2R z) ->
+  is_finite (ffma prec emax Hprec Hmax x y z) = true
+  /\ exists eps, Rabs eps <= u /\ B2R (ffma prec emax Hprec Hmax x y z) = (B2R x * B2R y + B2R z) * (1 + eps).
+Proof.
+  intros Fx Fy Fz [Hlo Hhi]. unfold FloatM.ffma.
+  generalize (Bfma_correct prec emax Hprec Hmax mode_NE x y z Fx Fy Fz). cbv zeta. rewrite Rlt_bool_true by exact Hhi.
+  intros (HR & HF & _). split; [exact HF|].
+  destruct (relative_error_N_FLT_ex radix2 emin prec Hprec (fun x => negb (Z.even x)) _ Hlo) as (eps & He & Hr).
+  exists eps. split; [exact He|]. rewrite HR. exact Hr.
+Qed.
+
+(* x.mul_add(a, b) with a and b stored in other base units: one rounding of x * a' + b', a' and b' the re-based operands.
+   |result - (x A + B)| <= u |x A + B| + (1 + u) (Ea |x A| + Eb |B|)   (A, B the exact re-basings) *)
+Theorem mixed_muladd_abserr U Ua Ub da ds (x a b : fl) :
+  let ta := cbt U Ua da a in let tb := cbt U Ub ds b in
+  let Ea := Hc ^ ops prec emax ta - 1 in let Eb := Hc ^ ops prec emax tb - 1 in
+  let A := rebR U Ua da a in let B := rebR U Ub ds b in
+  let a' := change_base F U Ua da a in let b' := change_base F U Ub ds b in
+  let X := B2R x * A + B in
+  let res := q_muladd St (ffma prec emax Hprec Hmax) true U Ua Ub da ds x a b in
+  Safe prec emax Hprec Hmax ta -> Safe prec emax Hprec Hmax tb -> is_finite x = true ->
+  normal prec emax (B2R x * B2R a' + B2R b') ->
+  is_finite res = true /\ Rabs (B2R res - X) <= u * Rabs X + (1 + u) * (Ea * Rabs (B2R x * A) + Eb * Rabs B).
+Proof.
+  intros ta tb Ea Eb A B a' b' X res Sa Sb Fx Nrm.
+  destruct (change_base_relerr prec emax Hprec Hmax lib U Ua da a Sa) as [Fa Ha]. fold ta Ea A a' in Ha, Fa.
+  destruct (change_base_relerr prec emax Hprec Hmax lib U Ub ds b Sb) as [Fb Hb]. fold tb Eb B b' in Hb, Fb.
+  assert (HEa : 0 <= Ea) by (unfold Ea; generalize (Hn_ge1 prec Hprec (ops prec emax ta)); lra).
+  assert (HEb : 0 <= Eb) by (unfold Eb; generalize (Hn_ge1 prec Hprec (ops prec emax tb)); lra).
+  assert (Hu : 0 < u) by apply u_pos.
+  assert (Er : res = ffma prec emax Hprec Hmax x a' b') by reflexivity.
+  rewrite Er. destruct (ffma_rel x a' b' Fx Fa Fb Nrm) as (Fr & eps & He & Es). split; [exact Fr|].
+  rewrite Es. unfold X. set (XA := B2R x * A) in *. set (da' := B2R a' - A) in *. set (db' := B2R b' - B) in *.
+  replace ((B2R x * B2R a' + B2R b') * (1 + eps) - (XA + B))
+    with ((XA + B) * eps + (B2R x * da' + db') * (1 + eps)) by (unfold XA, da', db'; ring).
+  assert (H1 : Rabs (1 + eps) <= 1 + u). { eapply Rle_trans; [apply Rabs_triang|]. rewrite Rabs_R1. lra. }
+  assert (D : Rabs (B2R x * da' + db') <= Ea * Rabs XA + Eb * Rabs B).
+  { eapply Rle_trans; [apply Rabs_triang|]. unfold XA. rewrite !Rabs_mult.
+    assert (Px := Rabs_pos (B2R x)). assert (Pa := Rabs_pos A).
+    assert (Rabs (B2R x) * Rabs da' <= Ea * (Rabs (B2R x) * Rabs A)) by nra. lra. }
+  eapply Rle_trans; [apply Rabs_triang|]. rewrite (Rabs_mult (XA + B)), (Rabs_mult (B2R x * da' + db')).
+  assert (P1 := Rabs_pos (XA + B)). assert (P4 := Rabs_pos eps). assert (P5 := Rabs_pos (B2R x * da' + db')).
+  assert (P6 : 0 <= Ea * Rabs XA + Eb * Rabs B).
+  { assert (Q1 := Rabs_pos XA). assert (Q2 := Rabs_pos B). nra. }
+  assert (A1 : Rabs (XA + B) * Rabs eps <= u * Rabs (XA + B)) by nra.
+  assert (A2 : Rabs (B2R x * da' + db') * Rabs (1 + eps) <= (1 + u) * (Ea * Rabs XA + Eb * Rabs B)).
+  { apply Rle_trans with ((Ea * Rabs XA + Eb * Rabs B) * (1 + u)); [apply Rmult_le_compat; try lra; apply Rabs_pos|lra]. }
+  lra.
 Qed.
 End M.
